@@ -440,7 +440,7 @@ def shape_of(case, verdict, reason, per, cn_per, code):
             if alone:
                 return "+".join(sorted(set(alone)))
         if case["cn"]:
-            notes = [x for x in reason.split("+") if x.startswith("cn-ignored")]
+            notes = sorted({x for part in reason.split("|") for x in part.split("+") if x.startswith("cn-ignored")})
             return "cn-accepted:" + ("+".join(notes) or reason)
         return "only-in-combination:" + reason
     return reason
